@@ -65,12 +65,18 @@ def shape_len(shape, n, m):
     return {"none": 0, "one": 1, "per_algorithm": n, "per_task": m, "per_pair": n * m}[shape]
 
 
-def ob_modes(n, m, shape, n_trials):
+ASYMMETRIC = ["serial", "thread", "process", "thread", "process", "serial", "process", "serial", "thread"]
+
+
+def ob_modes(n, m, shape, n_trials, symbolic_slots=None):
+    """symbolic_slots: indexes of the entries chosen by the solver (default: all); the others follow a fixed asymmetric
+    pattern, so that a transposed / regrouped table is visible without 4^(n*m) paths"""
     def f():
         with env(stubs.pool_layer(), allow_seed=True):
             L = shape_len(shape, n, m)
-            alphabet = ALPHABET if L <= 5 else ["serial", "thread", "bogus"]          # 3^6 instead of 4^6 paths
-            entries = [sym.choice(f"mode{k}", alphabet) for k in range(L)]
+            alphabet = ALPHABET if L <= 5 or symbolic_slots is not None else ["serial", "thread", "bogus"]
+            entries = [sym.choice(f"mode{k}", alphabet) if symbolic_slots is None or k in symbolic_slots
+                       else ASYMMETRIC[k] for k in range(L)]
             modes = None if shape == "none" else tuple(entries)
             log = []
             algos, tasks = make_algos(n, log), make_tasks(m)
@@ -179,6 +185,10 @@ def obligations(tier):
                     continue
                 nt = 2 if n * m <= 2 else 1
                 obs.append(Ob(f"modes[n={n},m={m},{shape}]", ob_modes(n, m, shape, nt), 900 if n * m <= 4 else 3000))
+    if not th:          # the non-square grids with one mode per pair: fixed asymmetric pattern + one solver-chosen entry
+        for n, m in ((2, 3), (3, 2)):
+            obs.append(Ob(f"modes[n={n},m={m},per_pair,one-symbolic-slot]", ob_modes(n, m, "per_pair", 1, (4,)), 900))
+            obs.append(Ob(f"modes[n={n},m={m},per_task,one-symbolic-slot]", ob_modes(n, m, "per_task", 1, (0,)), 900))
     obs.append(Ob("bad_shapes", ob_bad_shapes(), 60))
     for n in (1, 2, 3):
         obs.append(Ob(f"export[n={n},csv]", ob_export(n, "csv"), 120))
